@@ -261,6 +261,16 @@ func e16RootCase(seed uint64, n int, handlerKind, closeAt, created string, overf
 				mon.Close()
 				closedAtSent = g.sentCount()
 			}
+			if closeAt == "during-initialize" && i == 2 {
+				// OnInitialize (slow handler) is still running; a burst of events is in flight
+				// or buffered behind it at the very moment the monitor is closed
+				for k := 0; k < 4+rng.Intn(8); k++ {
+					g.mutate(rng, u)
+					note()
+				}
+				mon.Close()
+				closedAtSent = g.sentCount()
+			}
 			if closeAt == "during-callback" && i == total/2 {
 				// the handler is (with delay>0) most likely inside a callback now
 				mon.Close()
@@ -280,8 +290,11 @@ func e16RootCase(seed uint64, n int, handlerKind, closeAt, created string, overf
 		sent := g.sent
 		label := fmt.Sprintf("untyped monitor (handler %s, close %s, created %s)", handlerKind, closeAt, created)
 		h.mu.Lock()
-		maxInfl, afterDn := h.maxInfl, h.afterDn
+		maxInfl, afterDn, runningAtDn := h.maxInfl, h.afterDn, h.runningAtDn
 		h.mu.Unlock()
+		if runningAtDn > afterDn {
+			r.V("C16", "callback-after-done", "%s: Done() closed while a callback was still running (%d time(s))", label, runningAtDn-afterDn)
+		}
 		if maxInfl > 1 {
 			r.V("C16", "callbacks-overlap", "%s: %d callbacks were running at once", label, maxInfl)
 		}
@@ -295,7 +308,7 @@ func e16RootCase(seed uint64, n int, handlerKind, closeAt, created string, overf
 			}
 			// closed before ready: at most the initialize call may have run
 			judgeCallbacks(r, label, calls, sent, createdAt, false)
-		case "mid-stream", "during-callback":
+		case "mid-stream", "during-callback", "during-initialize":
 			if !waitCh(mon.Done(), virtBound) {
 				r.V("C16", "monitor-not-done", "%s: Close() but Done() never closes", label)
 			}
@@ -725,13 +738,86 @@ func e16SiblingCase(seed uint64, n int) Case {
 	}}
 }
 
+
+// e16InitCloseCase: the monitor is closed (or its publisher stops) while a slow
+// OnInitialize is running and a burst of events is in flight or buffered
+// behind it; repeated with varying burst sizes and instants.  Done() must not
+// close before the running callback has returned, no callback may begin after
+// it, and the callbacks that did run are a prefix-compatible, ordered part of
+// the stream.
+func e16InitCloseCase(seed uint64, n int) Case {
+	id := fmt.Sprintf("E16/close-during-initialize/%d/%d", seed, n)
+	rounds := 30
+	return Case{ID: id, Desc: map[string]interface{}{"seed": seed, "n": n, "rounds": rounds, "what": "Close()/publisher stop while OnInitialize is running with events in flight"}, Bubble: true, Run: func(r *Res) {
+		rng := kit.NewRng(kit.Mix(seed, uint64(n)+1660))
+		u := smallUniverse()
+		for round := 0; round < rounds && !r.Failed(); round++ {
+			core := kit.NewCore(&kit.Plan{Seed: rng.U64(), PYield: 150, PSleep: 40, MaxSleep: 50 * time.Microsecond})
+			g := newRootRig(core, nil)
+			for i := 0; i < 3; i++ {
+				g.root.Cache().Update(newEv(kcacheUpdate, kit.Pod(u.nss[i%2], u.names[i], strconv.Itoa(g.nextRV), u.labels[i+1])))
+				g.nextRV++
+			}
+			g.root.MakeReady()
+			h := newRecHandler()
+			h.core = core
+			h.delay = time.Duration(300+rng.Intn(900)) * time.Microsecond
+			mon, err := kcache.NewMonitor(g.root.Publisher(), h)
+			if err != nil {
+				r.V("C16", "monitor-create-error", "%v", err)
+				return
+			}
+			h.mu.Lock()
+			h.doneCh = mon.Done()
+			h.mu.Unlock()
+			time.Sleep(time.Duration(rng.Intn(int(h.delay/time.Microsecond))) * time.Microsecond) // somewhere inside OnInitialize
+			for k := 0; k < 1+rng.Intn(12); k++ {
+				g.mutate(rng, u)
+			}
+			via := "Close()"
+			if round%3 == 2 {
+				via = "publisher stop"
+				g.root.Stop()
+			} else {
+				mon.Close()
+			}
+			if !waitCh(mon.Done(), virtBound) {
+				r.V("C16", "monitor-not-done", "monitor closed (%s) during OnInitialize: Done() never closes", via)
+				return
+			}
+			time.Sleep(2 * h.delay)
+			core.Barrier()
+			h.mu.Lock()
+			maxInfl, afterDn, runningAtDn := h.maxInfl, h.afterDn, h.runningAtDn
+			h.mu.Unlock()
+			label := fmt.Sprintf("monitor with a slow OnInitialize (%v), %s while it ran with a burst in flight (round %d)", h.delay, via, round)
+			r.Add("close-during-initialize-rounds", 1)
+			if maxInfl > 1 {
+				r.V("C16", "callbacks-overlap", "%s: %d callbacks were running at once", label, maxInfl)
+			}
+			if afterDn > 0 {
+				r.V("C16", "callback-after-done", "%s: %d callback(s) began after Done() was closed", label, afterDn)
+			} else if runningAtDn > 0 {
+				r.V("C16", "callback-after-done", "%s: Done() closed while a callback was still running", label)
+			}
+			judgeCallbacks(r, label, h.snapshot(), g.sent, 0, false)
+			g.stop(r, "C12")
+		}
+		r.Key(id)
+		r.Sample = map[string]interface{}{"rounds": rounds}
+	}}
+}
+
 func init() {
 	register("E16", func(tier string, seed uint64) []Case {
 		var cases []Case
 		reps := tierPick(tier, 3, 2000)
 		for rep := 0; rep < reps; rep++ {
 			for _, hk := range []string{"instant", "fast", "slow", "blocked"} {
-				for _, cl := range []string{"none", "before-ready", "mid-stream", "during-callback", "publisher-before-ready", "cache-stopped-before-ready"} {
+				for _, cl := range []string{"none", "before-ready", "mid-stream", "during-callback", "publisher-before-ready", "cache-stopped-before-ready", "during-initialize"} {
+					if cl == "during-initialize" && hk != "slow" {
+						continue
+					}
 					for _, cr := range []string{"before-ready", "after-ready", "after-ready-prebuffered"} {
 						if cr != "before-ready" && (cl == "before-ready" || cl == "publisher-before-ready" || cl == "cache-stopped-before-ready") {
 							continue
@@ -750,6 +836,9 @@ func init() {
 			}
 			for i := 0; i < 6; i++ {
 				cases = append(cases, e16SiblingCase(seed, rep*6+i))
+			}
+			for i := 0; i < 5; i++ {
+				cases = append(cases, e16InitCloseCase(seed, rep*5+i))
 			}
 			for i, pk := range []string{"all", "no-create", "no-update", "no-delete"} {
 				cases = append(cases, e16TypedCloseCase(seed, rep*4+i, pk), e16TypedCloseCase(seed, rep*4+i+1, pk))
